@@ -3,8 +3,11 @@ import Tahoe.Generated.Mutpublish
 /-! C09 — mutable files read back what one writer wrote (property theorems; helper lemmas are in
     `Tahoe/Mutable/ContentLemmas.lean`, the model in `Tahoe/Mutable/Content.lean`).
 
-    The model is the code with fixes/C09-update-stale-node-size.diff and
-    fixes/C09-sdmf-update-past-eof.diff applied.  `WF cfg v` says that the version was published by a
+    As built: the model describes the code as repaired in /repo — b67174d (`Publish.update` takes the old length
+    from the version, fixes/C09-update-stale-node-size.diff), 2a6f1c2 (SDMF update beyond EOF zero-fills,
+    fixes/C09-sdmf-update-past-eof.diff), 6586d18 (a second `update()` through one version object applies to the
+    version the first one published, fixes/C09-update-twice-stale-version.diff).  14 theorems, none `_partial`.
+    `WF cfg v` says that the version was published by a
     client with configuration `cfg` (segment size = `next_multiple(DEFAULT_MUTABLE_MAX_SEGMENT_SIZE | len, k)`);
     it is established by `create` and preserved by every operation (`history_refines_bytes` carries it).
 
